@@ -291,6 +291,9 @@ theorem renameStep_inv {nameOf : Str → Option Str} (env : NameEnv nameOf) {st 
   | none => exact hweak
   | some gname =>
     simp only
+    by_cases hself : r.2 = r.1
+    · rw [if_pos hself]; exact hweak
+    rw [if_neg hself]
     split
     · exact hweak
     · rename_i hsb
@@ -370,17 +373,21 @@ theorem renameFold_inv {nameOf : Str → Option Str} (env : NameEnv nameOf) (req
 /-- no function both shadows and is shadowed -/
 def NoBoth (st : RState) : Prop := ∀ s v w, st.shadows s = some v → st.shadowedBy s = some w → False
 
-/-- a request that does not name its own function keeps `NoBoth`: the visited function must not
-    be shadowed yet (the check added by "refuse rename-to chains in either processing order"), the
-    target must neither shadow nor be shadowed -/
+/-- every request keeps `NoBoth`: one naming its own function is refused (`target is node`), the
+    visited function must not be shadowed yet (the check added by "refuse rename-to chains in either
+    processing order"), the target must neither shadow nor be shadowed -/
 theorem renameStep_noboth {nameOf : Str → Option Str} (env : NameEnv nameOf) {st : RState} {r : Str × Str}
-    {pend : List Str} (h : RInv nameOf st pend) (hne : r.1 ≠ r.2) (nb : NoBoth st) :
+    {pend : List Str} (h : RInv nameOf st pend) (nb : NoBoth st) :
     NoBoth (renameStep nameOf st r) := by
   unfold renameStep
   cases hg : nameOf r.2 with
   | none => exact nb
   | some gname =>
     simp only
+    by_cases hself : r.2 = r.1
+    · rw [if_pos hself]; exact nb
+    rw [if_neg hself]
+    have hne : r.1 ≠ r.2 := fun e => hself e.symm
     split
     · exact nb
     · split
@@ -426,7 +433,7 @@ theorem renameStep_noboth {nameOf : Str → Option Str} (env : NameEnv nameOf) {
                 exact nb s v w hv hw
 
 theorem renameFold_noboth_aux {nameOf : Str → Option Str} (env : NameEnv nameOf) (reqs : List (Str × Str))
-    (st : RState) (hnd : (reqs.map (·.1)).Nodup) (hne : ∀ r ∈ reqs, r.1 ≠ r.2)
+    (st : RState) (hnd : (reqs.map (·.1)).Nodup)
     (h : RInv nameOf st (reqs.map (·.1))) (nb : NoBoth st) :
     NoBoth (reqs.foldl (renameStep nameOf) st) := by
   induction reqs generalizing st with
@@ -434,15 +441,13 @@ theorem renameFold_noboth_aux {nameOf : Str → Option Str} (env : NameEnv nameO
   | cons r rs ih =>
     simp only [List.map_cons, List.nodup_cons] at hnd
     simp only [List.foldl_cons]
-    exact ih _ hnd.2 (fun r' hr' => hne r' (List.mem_cons_of_mem _ hr'))
-      (renameStep_inv env (by simpa using h) hnd.1)
-      (renameStep_noboth env h (hne r List.mem_cons_self) nb)
+    exact ih _ hnd.2 (renameStep_inv env (by simpa using h) hnd.1) (renameStep_noboth env h nb)
 
-/-- after any number of requests, none of which names its own function, nobody both shadows and is
-    shadowed: the writer's `elif` never hides a `shadows` -/
+/-- after any number of requests nobody both shadows and is shadowed: the writer's `elif` never
+    hides a `shadows` -/
 theorem renameFold_noboth {nameOf : Str → Option Str} (env : NameEnv nameOf) (reqs : List (Str × Str))
-    (hnd : (reqs.map (·.1)).Nodup) (hne : ∀ r ∈ reqs, r.1 ≠ r.2) : NoBoth (renameFold nameOf reqs) :=
-  renameFold_noboth_aux env reqs _ hnd hne (RInv.init _ _) (by intro s v w h; simp [RState.init] at h)
+    (hnd : (reqs.map (·.1)).Nodup) : NoBoth (renameFold nameOf reqs) :=
+  renameFold_noboth_aux env reqs _ hnd (RInv.init _ _) (by intro s v w h; simp [RState.init] at h)
 
 /-- only visited sources shadow, only requested targets are shadowed -/
 theorem renameStep_dom (nameOf : Str → Option Str) (st : RState) (r : Str × Str) (S T : List Str)
@@ -455,6 +460,9 @@ theorem renameStep_dom (nameOf : Str → Option Str) (st : RState) (r : Str × S
   | none => exact ⟨hs, ht⟩
   | some g =>
     simp only
+    by_cases hself : r.2 = r.1
+    · rw [if_pos hself]; exact ⟨hs, ht⟩
+    rw [if_neg hself]
     split
     · exact ⟨hs, ht⟩
     · split
@@ -695,10 +703,10 @@ theorem w_introspectable {k : WKind} {i : Bool} {e : Elem} {sh sb : Option Str} 
   exact List.mem_singleton.mpr rfl
 
 theorem w_version {k : WKind} {i : Bool} {e : Elem} {sh sb : Option Str} {c : Char} {cs : Str}
-    (hk : k.hasVersion = true) (h : e.version = some (c :: cs)) :
+    (h : e.version = some (c :: cs)) :
     ("version".toList, c :: cs) ∈ writeAttrs k i e sh sb := by
   apply generic_sub_write
-  simp only [genericAttrs, hk, if_true, h, List.mem_append]
+  simp only [genericAttrs, h, List.mem_append]
   left; left; left; left
   exact mem_optAttr _ _ _
 
